@@ -23,7 +23,7 @@ Base ==
      RX(<<5, 2>>, <<1, 5, 1>>, <<3, 5>>, <<4, 3, 4>>, -10, -10, TWOBODY) >>  \* 7  E + H2 -> H + E + H  (6 respelled: "E" < "H" < "e-")
 WildR == << RX(<<1, 1>>, <<2>>, <<4, 4>>, <<5>>, -10, -10, UNKNOWN),    \* 8  H + H -> H2, type unknown (equal to 1 AND to 9)
             RX(<<1, 1>>, <<2>>, <<4, 4>>, <<5>>, -10, -10, COSMIC) >>   \* 9  H + H -> H2, another type (not equal to 1)
-Universe == [R |-> IF Wild THEN Base \o WildR ELSE Base]
+Universe == [R |-> IF Wild THEN Base \o WildR ELSE Base, S |-> [c \in 1..5 |-> [surface |-> FALSE, neutral |-> c # 5, gas |-> 0]]]
 
 AllowedChoices == { {}, {1, 2}, {1, 2, 3, 4}, {1, 2, 5} }
 RequiredChoices == { {}, {5} }
